@@ -82,6 +82,13 @@ impl Persister for FilePersister {
                 format!("{COMPONENT} (error: {error}) - failed to write data to file: {path}")
             })
             .map_err(|_| IggyError::CannotWriteToFile)?;
+        // tokio::fs::File completes a write in the background; wait until it reached the file.
+        file.flush()
+            .await
+            .with_error_context(|error| {
+                format!("{COMPONENT} (error: {error}) - failed to flush data to file: {path}")
+            })
+            .map_err(|_| IggyError::CannotWriteToFile)?;
         Ok(())
     }
 
@@ -96,6 +103,13 @@ impl Persister for FilePersister {
             .await
             .with_error_context(|error| {
                 format!("{COMPONENT} (error: {error}) - failed to write data to file: {path}")
+            })
+            .map_err(|_| IggyError::CannotWriteToFile)?;
+        // tokio::fs::File completes a write in the background; wait until it reached the file.
+        file.flush()
+            .await
+            .with_error_context(|error| {
+                format!("{COMPONENT} (error: {error}) - failed to flush data to file: {path}")
             })
             .map_err(|_| IggyError::CannotWriteToFile)?;
         Ok(())
